@@ -318,6 +318,8 @@ pub mod mpsc {
             }
             let payload = format!("{t:?}");
             c.buf.borrow_mut().push_back(t);
+            let me = rt::me();
+            rt::with(|w| w.tasks.entry(me).or_default().sends += 1);
             rt::log(EvKind::Send {
                 chan: c.obj,
                 payload,
